@@ -34,7 +34,7 @@ def full_profile(pid=None, **kw):
                "tracker": 0.15, "routing_objects": 0.4, "process_routing": 0.3, "flexible_routing": 0.3,
                "self_loops": 0.5, "custom_dists": 0.3, "zero_service": 0.5}
     args = dict(allowed=FULL, weights=weights, numeric="mixed", max_nodes=3, max_classes=3,
-                plans=("max_time", "max_time", "max_customers"), horizon=(4.0, 14.0), budget=500, finite_arrivals=0.12)
+                plans=("max_time", "max_time", "max_customers", "mixed"), horizon=(4.0, 14.0), budget=500, finite_arrivals=0.12)
     args["excluded"] = EXCL[pid] if pid in EXCL else KNOWN_EXCLUSIONS
     args.update(kw)
     return S.Profile(**args)
